@@ -85,6 +85,9 @@ func init() {
 func (c *context) RecvMsg() (*protocol.Message, error) {
 	s := c.s
 
+	// The deadline covers the whole call: it is armed once, not again
+	// each time a queue resize makes us go round the loop.
+	tq := nilQ
 	for {
 		s.Lock()
 		if c.closed {
@@ -92,7 +95,6 @@ func (c *context) RecvMsg() (*protocol.Message, error) {
 			return nil, protocol.ErrClosed
 		}
 		cq := c.closeQ
-		tq := nilQ
 		rq := s.recvQ
 		zq := s.sizeQ
 		expTime := c.recvExpire
@@ -100,7 +102,7 @@ func (c *context) RecvMsg() (*protocol.Message, error) {
 		c.recvPipe = nil
 		s.Unlock()
 
-		if expTime > 0 {
+		if tq == nilQ && expTime > 0 {
 			tq = time.After(expTime)
 		}
 
